@@ -1008,7 +1008,25 @@ impl Model for Cw20Model {
                 match cur.0.checked_add(amt.0) {
                     None => v.push(Violation::new("C02.allowance_overflow_accepted", format!("{a:?}"))),
                     Some(n) => {
-                        let ne = e.map(|e| ExpKey::from(&e)).unwrap_or(cur.1);
+                        let mut ne = e.map(|e| ExpKey::from(&e)).unwrap_or(cur.1);
+                        // Corner the property does not pin: topping up an EXHAUSTED allowance without naming an
+                        // expiry. The reference keeps the old deadline after a draw to zero and forgets it after
+                        // a decrease to zero (the cw20 spec's wording); an implementation that ends up with an
+                        // EARLIER-or-equal deadline than that is stricter, never laxer, and is followed.
+                        if e.is_none() && cur.0 == 0 {
+                            if let Some((_, oe)) = obs.allow.get(&(*owner, *spender)) {
+                                let not_later = match (*oe, ne) {
+                                    (a, b) if a == b => true,
+                                    (_, ExpKey::Never) => true,
+                                    (ExpKey::H(a), ExpKey::H(b)) => a <= b,
+                                    (ExpKey::T(a), ExpKey::T(b)) => a <= b,
+                                    _ => false,
+                                };
+                                if not_later {
+                                    ne = *oe;
+                                }
+                            }
+                        }
                         r.allow.insert((*owner, *spender), (n, ne));
                         if cfg.monitors {
                             // an increase on top of an expired allowance keeps the stale amount usable only
